@@ -444,6 +444,29 @@ func ruleTokenKeyed(c *chk.Ctx, owner string) {
 		msg := ir.NormCell(s.send.X)
 		ok := false
 		why := ""
+		// a message built by a private constructor: look at the message it allocates, reading its
+		// parameters as the arguments of this call
+		var viaCall *ssa.Call
+		if call, isCall := msg.(*ssa.Call); isCall {
+			if g := call.Call.StaticCallee(); g != nil && c.P.InRepo[g] && !ir.Exported(g) {
+				if rets := ir.Returns(g); len(rets) == 1 && len(rets[0].Results) == 1 {
+					if al2, isAl := ir.NormCell(ir.ReturnResult(rets[0], 0)).(*ssa.Alloc); isAl {
+						msg, viaCall = al2, call
+					}
+				}
+			}
+		}
+		norm := func(v ssa.Value) ssa.Value {
+			v = ir.NormCell(v)
+			if prm, isP := v.(*ssa.Parameter); isP && viaCall != nil && prm.Parent() == viaCall.Call.StaticCallee() {
+				for i, q := range prm.Parent().Params {
+					if q == prm && i < len(viaCall.Call.Args) {
+						return ir.NormCell(viaCall.Call.Args[i])
+					}
+				}
+			}
+			return v
+		}
 		if inbound != nil && msg == inbound {
 			ok, why = true, "the message delivered is the inbound message whose id produced the lookup key"
 		} else if al, isAlloc := msg.(*ssa.Alloc); isAlloc {
@@ -459,7 +482,7 @@ func ruleTokenKeyed(c *chk.Ctx, owner string) {
 						continue
 					}
 					v := st.Val
-					if cv, isC := v.(*ssa.Convert); isC && ir.NormCell(cv.X) == key {
+					if cv, isC := v.(*ssa.Convert); isC && norm(cv.X) == key {
 						ok, why = true, "fresh message whose ID is the lookup key"
 					}
 					if u, isU := v.(*ssa.UnOp); isU && inbound != nil {
